@@ -412,6 +412,8 @@ public:
 
     // Add the requested environment.
     for (const auto& entry: environment) {
+      if (isProcessAssignedEnvironmentKey(entry.first))
+        continue;
       posixEnv.setIfMissing(entry.first, entry.second);
     }
 
@@ -422,6 +424,8 @@ public:
     if (attributes.inheritEnvironment) {
       for (const char* const* p = this->environment; *p != nullptr; ++p) {
         auto pair = StringRef(*p).split('=');
+        if (isProcessAssignedEnvironmentKey(pair.first))
+          continue;
         posixEnv.setIfMissing(pair.first, pair.second);
       }
     }
